@@ -1521,8 +1521,10 @@ package connect
 //@ trusted func StreamingHandlerConn.ResponseTrailer(c) res
 //@   pure
 //@   ensures res != nil
+//@ ghostfield ended bool
 //@ trusted func StreamingHandlerConn.Receive(c, msg) err
-//@   assigns everything
+//@   assigns everything, ended(c)
+//@   ensures ended(c) == (old(ended(c)) || (err != nil && Is(err, io.EOF)))   // label: the-request-has-ended-once-Receive-reports-the-end-of-the-stream
 //@ trusted func StreamingHandlerConn.Send(c, msg) err
 //@   assigns everything
 
@@ -1530,7 +1532,8 @@ package connect
 //@ trusted func NewServerStreamHandler$1.implementation(ctx, request, stream) err
 //@   assigns everything
 //@ func NewServerStreamHandler$1(ctx, conn) err
-//@   tags C12, C11
+//@   tags C12, C11, C07
+//@   assert@call(NewServerStreamHandler$1.implementation#1): ended(conn)   // label: user-code-runs-only-when-the-request-is-exactly-one-message   // tags: C07
 //@   requires conn != nil && deref(implementation) != nil
 //@   assigns everything
 //@   assert@call(NewServerStreamHandler$1.implementation#1): arg1 != nil && arg1.spec.Procedure == callres("StreamingHandlerConn.Spec", 1).Procedure && arg1.spec.StreamType == callres("StreamingHandlerConn.Spec", 1).StreamType && arg1.spec.IsClient == callres("StreamingHandlerConn.Spec", 1).IsClient   // label: user-code-sees-the-spec-of-the-connection
@@ -1547,7 +1550,8 @@ package connect
 //@ trusted func AnyResponse.Any(r) res
 //@   pure
 //@ func NewUnaryHandler$2(ctx, conn) err
-//@   tags C12, C11
+//@   tags C12, C11, C07
+//@   assert@call(NewUnaryHandler$2.untyped#1): ended(conn)   // label: user-code-runs-only-when-the-request-is-exactly-one-message   // tags: C07
 //@   requires conn != nil && deref(untyped) != nil
 //@   assigns everything
 //@   assert@call(NewUnaryHandler$2.untyped#1): typeis(arg1, "*Request") && (let r := cast(arg1, "*Request") in r.spec.Procedure == callres("StreamingHandlerConn.Spec", 1).Procedure && r.spec.StreamType == callres("StreamingHandlerConn.Spec", 1).StreamType && r.spec.IsClient == callres("StreamingHandlerConn.Spec", 1).IsClient && r.header == callres("StreamingHandlerConn.RequestHeader", 1))   // label: user-code-sees-the-spec-and-request-headers-of-the-connection
@@ -2871,3 +2875,11 @@ package connect
 //@   requires i != nil && next != nil
 //@   assigns nothing
 //@   ensures res != nil   // label: returns-a-function
+
+// handler.go: a unary or server-streaming request is exactly one message (C07)
+//@ func expectEndOfRequest(conn) err
+//@   tags C07
+//@   requires conn != nil
+//@   assigns everything
+//@   ensures err == nil ==> ended(conn)                                  // label: nil-only-when-the-request-stream-has-ended
+//@   ensures err != nil ==> coded(err) || err == callres("StreamingHandlerConn.Receive", 1)
